@@ -2186,9 +2186,13 @@ impl<'a> CompilerState<'a> {
                                 _ => unreachable!(),
                             }
                         }
-                        // Insert it into the global table
+                        // Insert it into the global table (a parameter already declared by a
+                        // prototype keeps its position, see the same rule for functions)
                         let var = Variable {
-                            order: self.variables.len(),
+                            order: match self.variables.get(&longname) {
+                                Some(v) => v.order,
+                                None => self.variables.len(),
+                            },
                             signed,
                             memory,
                             var_const,
